@@ -60,7 +60,8 @@ impl SchemaInner {
         check(
             &self.types,
             std::iter::once(self.env.registry.query_type.as_str())
-                .chain(self.env.registry.mutation_type.as_deref()),
+                .chain(self.env.registry.mutation_type.as_deref())
+                .chain(self.env.registry.subscription_type.as_deref()),
         )?;
 
         for ty in self.types.values() {
@@ -91,7 +92,8 @@ impl SchemaInner {
                             std::iter::once(field.ty.type_name())
                                 .chain(field.arguments.values().map(|arg| arg.ty.type_name()))
                         })
-                        .flatten(),
+                        .flatten()
+                        .chain(interface.implements.iter().map(AsRef::as_ref)),
                 )?,
                 Type::Union(union) => check(&self.types, &union.possible_types)?,
                 Type::Subscription(subscription) => check(
@@ -391,7 +393,7 @@ fn check_is_valid_implementation(
         for arg in field.arguments.values() {
             let impl_arg = match impl_field.argument(&arg.name) {
                 Some(impl_arg) => impl_arg,
-                None if !arg.ty.is_nullable() => {
+                None => {
                     return Err(format!(
                         "Field \"{}.{}\" requires argument \"{}\" defined by interface \"{}.{}\"",
                         implementing_type.name(),
@@ -402,12 +404,12 @@ fn check_is_valid_implementation(
                     )
                     .into());
                 }
-                None => continue,
             };
 
-            if !arg.ty.is_subtype(&impl_arg.ty) {
+            // the argument must accept the same type (invariant)
+            if arg.ty != impl_arg.ty {
                 return Err(format!(
-                    "Argument \"{}.{}.{}\" is not sub-type of \"{}.{}.{}\"",
+                    "Argument \"{}.{}.{}\" is not the same type as \"{}.{}.{}\"",
                     implemented_type.name,
                     field.name,
                     arg.name,
@@ -419,9 +421,27 @@ fn check_is_valid_implementation(
             }
         }
 
+        // additional arguments of the implementing field must not be required
+        for impl_arg in impl_field.arguments().values() {
+            if !field.arguments.contains_key(&impl_arg.name)
+                && !impl_arg.ty.is_nullable()
+                && impl_arg.default_value.is_none()
+            {
+                return Err(format!(
+                    "Field \"{}.{}\" must not require argument \"{}\" that is not defined by interface \"{}.{}\"",
+                    implementing_type.name(),
+                    field.name,
+                    impl_arg.name,
+                    implemented_type.name,
+                    field.name,
+                )
+                .into());
+            }
+        }
+
         // field must return a type which is equal to or a sub-type of (covariant) the
         // return type of implementedField field’s return type
-        if !impl_field.ty().is_subtype(&field.ty) {
+        if !field.ty.is_subtype(impl_field.ty()) {
             return Err(format!(
                 "Field \"{}.{}\" is not sub-type of \"{}.{}\"",
                 implementing_type.name(),
